@@ -167,6 +167,14 @@ void Stats::processMsg(int sockfd) {
            << ::strerror_r(errno, err_buf.data(), err_buf.size());
     }
   };
+  // Every way out of this function ends the session: shutdown waits for
+  // thread_count_ to drop back to zero
+  OOMD_SCOPE_EXIT {
+    std::unique_lock<std::mutex> lock(thread_mutex_);
+    thread_count_--;
+    lock.unlock();
+    thread_exited_.notify_one();
+  };
   char mode = 'a';
   char byte_buf;
   int num_read = 0;
@@ -216,10 +224,6 @@ void Stats::processMsg(int sockfd) {
     OLOG << "Stats server error: writing to socket: "
          << ::strerror_r(errno, err_buf.data(), err_buf.size());
   }
-  std::unique_lock<std::mutex> lock(thread_mutex_);
-  thread_count_--;
-  lock.unlock();
-  thread_exited_.notify_one();
 }
 
 std::unordered_map<std::string, int> Stats::getAll() {
